@@ -93,6 +93,7 @@ FAMILIES = {
     # harness-built systems (harness_bases.py)
     "soft": {"base": "harness:soft_spheres", "n": (2, 10), "cost": 1},
     "lj": {"base": "harness:lj_atoms", "n": (2, 8), "cost": 1},
+    "soft_disks": {"base": "harness:soft_disks", "n": (2, 10), "cost": 1},
     "hard_spheres": {"base": "harness:hard_spheres", "n": (2, 8), "cost": 1, "lattice": True, "chain_cap": True},
     "hard_disks": {"base": "harness:hard_disks", "n": (2, 9), "cost": 1, "lattice": True, "chain_cap": True},
     "hdd": {"base": "harness:hard_disk_dipoles", "n": (9, 9), "cost": 2, "lattice": True, "fixed_n": True,
@@ -178,6 +179,11 @@ def generate(rng, family, package_dir, events=2000, vary=True, shipped_n=False):
         current = float(sections["HypercubicSetting"]["system_length"])
         factor = rng.choice([1.5, 2.5, 3.3, 1.86, 1.3, 0.8 if "atoms" in family else 1.1])
         set_out.setdefault("HypercubicSetting", {})["system_length"] = repr(round(current * factor, 6))
+    if vary:
+        # the even power of the displaced (bond) potentials is free; every shipped configuration uses 2
+        for section, options in sections.items():
+            if "equilibrium_separation" in options and options.get("power") == "2" and rng.random() < 0.3:
+                set_out.setdefault(section, {})["power"] = rng.choice(["4", "6"])
     if vary and spec.get("veto") and sections.get("LeafUnitCellVetoEventHandler", {}).get(
             "estimator") == "inner_point_estimator" and rng.random() < 0.3:
         # the other single-point estimator (same options): never used by a shipped configuration
@@ -220,6 +226,9 @@ def generate(rng, family, package_dir, events=2000, vary=True, shipped_n=False):
                 "HypercubicSetting", sections.get("HypercuboidSetting", {})).get("dimension", 3))
             set_out.setdefault("InitialChainStartOfRunEventHandler", {})["initial_direction_of_motion"] = str(
                 rng.randrange(dim))
+            if "speed" in start and not spec.get("chain_cap") and rng.random() < 0.35:
+                # the speed is free in every shipped configuration (all of them use 1.0)
+                set_out["InitialChainStartOfRunEventHandler"]["speed"] = repr(rng.choice([0.5, 2.0, 1.7, 0.3]))
             ident = scenario_module.split_list(start["initial_active_identifier"])
             ident[0] = str(rng.randrange(n))
             if len(ident) == 2 and input_section == "RandomInputHandler":
